@@ -1,27 +1,28 @@
 (* C21 implementation model: src/database/ddl.rs (execute_alter_table, migrate_table_drop_column,
    execute_truncate, create / drop table and index) together with the parts of the DML paths
    that decide what a later full scan shows, hand-modelled at the level of stored rows.
-   Definitions only.  Faithful to the code AS IT IS:
+   Definitions only.  Faithful to the code AS IT IS (tree with the repairs 2b262ce, c3e8980,
+   e35ce21 and 6de60fd):
 
    * a stored row is (deleted?, values): DELETE only sets the DELETE bit of the record header
-     (a tombstone), full scans skip tombstones;
-   * ALTER TABLE ADD COLUMN is a catalogue-only change (table.add_column pushes the column, no
-     name check): stored records keep their old arity, and SimpleDecoder (src/sql/decoder.rs)
-     recognises a record written under a shorter prefix of the column list and reads the missing
-     columns as NULL - whatever the column's DEFAULT (it compares the record's
-     header length and total length with those of every prefix schema).  Abstractly: every stored row is padded with NULL;
-   * ALTER TABLE DROP COLUMN (migrate_table_drop_column) finds the column with
-     eq_ignore_ascii_case, rewrites EVERY B-tree entry - tombstones included - without the
-     column under a fresh record header (wrap_record_for_insert: DELETE bit cleared), removes the
-     indexes whose definition names the column, then calls table.drop_column(name), which
-     compares names exactly: a name spelled in the other letter case migrates the data and
-     leaves the catalogue unchanged.  No "last column" check;
-   * RENAME COLUMN renames the first column of that name; no check that the new name is free;
-     index definitions keep the old column name;
-   * UPDATE collects its rows without looking at the DELETE bit and writes a fresh header
-     (finding F-C05-2 of property C05): a matching tombstone comes back;
+     (a tombstone); full scans, DELETE and UPDATE skip tombstones (6de60fd);
+   * ALTER TABLE ADD COLUMN is a catalogue-only change, refused when the name is taken (e35ce21):
+     stored records keep their old arity, and SimpleDecoder (src/sql/decoder.rs) recognises a
+     record written under a shorter prefix of the column list (it compares the record's header
+     length and total length with those of every prefix schema) and reads the missing columns
+     as NULL - whatever the column's DEFAULT.  Abstractly: every stored row is padded with NULL;
+   * ALTER TABLE DROP COLUMN (migrate_table_drop_column) finds the column ignoring letter case,
+     refuses to drop the only column (e35ce21), rewrites EVERY B-tree entry without the column
+     under the entry's own record header (2b262ce: the DELETE bit is kept), removes the
+     definitions of the indexes that name the column - their files are only emptied and stay -
+     and drops the column under its catalogue name (c3e8980);
+   * RENAME COLUMN renames the column, refused when the new name is taken (e35ce21); index
+     definitions keep the old column name;
    * TRUNCATE physically deletes every entry (tombstones too);
    * CREATE INDEX does not check that the column exists; index names are looked up by name.
+   Before those repairs DROP COLUMN cleared the DELETE bit, a DROP COLUMN in another letter case
+   migrated the data without the catalogue, duplicate names and dropping the only column were
+   accepted, and UPDATE revived tombstones (former classes 2, 3, 4, 7, 9, 5).
    Reopening is the identity on this state (the catalogue and table files are what is read
    back); that persistence is SAMPLED by the correspondence run, not derived here. *)
 From Coq Require Import ZArith List Bool.
@@ -30,12 +31,10 @@ Import ListNotations.
 Open Scope Z_scope.
 
 Definition srow := (bool * row)%type.              (* (DELETE bit, values) *)
-(* imis = Some cs': the stored records were rewritten for the column list cs' while the
-   catalogue still says icols (only the case-mismatch DROP COLUMN does this) *)
 (* ishort: some stored record was written before the latest ADD COLUMN (it is shorter than the
    catalogue's column list); only the evolution-aware decoder of full scans and of DROP COLUMN
    reads such a record correctly *)
-Record itbl := mkI { icols : list col; irows : list srow; imis : option (list col); ishort : bool }.
+Record itbl := mkI { icols : list col; irows : list srow; ishort : bool }.
 (* ifiles: (index name, table) of index FILES whose definition is gone from the catalogue: DROP COLUMN
    removes the definitions of the indexes on the column (table.remove_index) but only empties
    their files *)
@@ -47,54 +46,56 @@ Definition live (rs : list srow) : list row := map snd (filter (fun p => negb (f
 Definition has_tomb (rs : list srow) : bool := existsb fst rs.
 
 Definition i_insert (r : row) (tb : itbl) : option itbl :=
-  if fits_row (icols tb) r then Some (mkI (icols tb) (irows tb ++ [(false, r)]) (imis tb) (ishort tb)) else None.
+  if fits_row (icols tb) r then Some (mkI (icols tb) (irows tb ++ [(false, r)]) (ishort tb)) else None.
 Definition i_insert_one (c : Z) (v : val) (tb : itbl) : option itbl :=
   match find_col c (icols tb) with
   | Some i => if fits (col_ty i (icols tb)) v
-              then Some (mkI (icols tb) (irows tb ++ [(false, default_row (icols tb) i v)]) (imis tb) (ishort tb)) else None
+              then Some (mkI (icols tb) (irows tb ++ [(false, default_row (icols tb) i v)]) (ishort tb)) else None
   | None => None
   end.
 Definition i_delete_eq (c : Z) (v : val) (tb : itbl) : option itbl :=
   match find_col c (icols tb) with
   | Some i => Some (mkI (icols tb)
                 (map (fun p : srow => if negb (fst p) && cell_matches i v (snd p) then (true, snd p) else p) (irows tb))
-                (imis tb) (ishort tb))
+                (ishort tb))
   | None => None
   end.
 Definition i_delete_all (tb : itbl) : option itbl :=
-  Some (mkI (icols tb) (map (fun p : srow => (true, snd p)) (irows tb)) (imis tb) (ishort tb)).
+  Some (mkI (icols tb) (map (fun p : srow => (true, snd p)) (irows tb)) (ishort tb)).
 Definition i_update_eq (sc : Z) (sv : val) (wc : Z) (wv : val) (tb : itbl) : option itbl :=
   match find_col sc (icols tb), find_col wc (icols tb) with
   | Some i, Some j =>
       if fits (col_ty i (icols tb)) sv
       then Some (mkI (icols tb)
-             (map (fun p : srow => if cell_matches j wv (snd p) then (false, set_nth i sv (snd p)) else p) (irows tb))
-             (imis tb) (ishort tb))
+             (map (fun p : srow => if negb (fst p) && cell_matches j wv (snd p) then (false, set_nth i sv (snd p)) else p) (irows tb))
+             (ishort tb))
       else None
   | _, _ => None
   end.
+(* every live row is rewritten under the current column list; tombstones stay as they are *)
 Definition i_update_all (sc : Z) (sv : val) (tb : itbl) : option itbl :=
   match find_col sc (icols tb) with
   | Some i => if fits (col_ty i (icols tb)) sv
-              then Some (mkI (icols tb) (map (fun p : srow => (false, set_nth i sv (snd p))) (irows tb)) (imis tb) false)
+              then Some (mkI (icols tb) (map (fun p : srow => if negb (fst p) then (false, set_nth i sv (snd p)) else p) (irows tb))
+                             (ishort tb && has_tomb (irows tb)))
               else None
   | None => None
   end.
 Definition i_add_col (c : col) (tb : itbl) : option itbl :=
-  if negb (fits (cty c) (cdef c)) then None
-  else Some (mkI (icols tb ++ [c]) (map (fun p : srow => (fst p, snd p ++ [VN])) (irows tb)) (imis tb)
+  if has_col (cname c) (icols tb) || negb (fits (cty c) (cdef c)) then None
+  else Some (mkI (icols tb ++ [c]) (map (fun p : srow => (fst p, snd p ++ [VN])) (irows tb))
                   (match irows tb with [] => ishort tb | _ => true end)).
+(* the spelling of the name (exact or other letter case) makes no difference *)
 Definition i_drop_col (c : Z) (exact : bool) (tb : itbl) : option itbl :=
   match find_col c (icols tb) with
   | Some i =>
-      let rs := map (fun p : srow => (false, remove_nth i (snd p))) (irows tb) in
-      if exact then Some (mkI (remove_nth i (icols tb)) rs (imis tb) false)
-      else Some (mkI (icols tb) rs (Some (remove_nth i (icols tb))) false)
+      if (length (icols tb) <=? 1)%nat then None
+      else Some (mkI (remove_nth i (icols tb)) (map (fun p : srow => (fst p, remove_nth i (snd p))) (irows tb)) false)
   | None => None
   end.
 Definition i_rename_col (c n : Z) (tb : itbl) : option itbl :=
   match find_col c (icols tb) with
-  | Some i => Some (mkI (rename_at i n (icols tb)) (irows tb) (imis tb) (ishort tb))
+  | Some i => if has_col n (icols tb) then None else Some (mkI (rename_at i n (icols tb)) (irows tb) (ishort tb))
   | None => None
   end.
 
@@ -115,7 +116,7 @@ Definition i_step (s : istate) (st : stmt) : istate * bool :=
       | None => match cs with
                 | [] => (s, false)                 (* does not parse *)
                 | _ => if nodup_names cs && forallb (fun c => fits (cty c) (cdef c)) cs
-                       then (mkIS (itabs s ++ [(t, mkI cs [] None false)]) (iidx s) (ifiles s), true) else (s, false)
+                       then (mkIS (itabs s ++ [(t, mkI cs [] false)]) (iidx s) (ifiles s), true) else (s, false)
                 end
       end
   | DropTable t =>
@@ -138,7 +139,7 @@ Definition i_step (s : istate) (st : stmt) : istate * bool :=
       | r => r
       end
   | RenameCol t c n => i_on t (i_rename_col c n) s
-  | Truncate t _ => i_on t (fun tb => Some (mkI (icols tb) [] (imis tb) false)) s
+  | Truncate t _ => i_on t (fun tb => Some (mkI (icols tb) [] false)) s
   | CreateIndex i t c =>
       match get t (itabs s) with
       | Some tb => if has_idx i (iidx s) then (s, false)
@@ -152,36 +153,10 @@ Definition i_step (s : istate) (st : stmt) : istate * bool :=
   | Reopen => (s, true)
   end.
 
-(* --- what a full scan shows.  Record shapes (src/records/schema.rs): header length
-   2 + ceil(n/8) + 2 * (number of variable columns) and the size of the fixed area decide
-   which prefix of the catalogue's column list SimpleDecoder takes a record for. *)
-Definition ty_fixed (ty : Z) : Z := if ty =? 0 then 4 else if ty =? 1 then 8 else 0.
-Definition ty_var (ty : Z) : Z := if ty =? 2 then 1 else 0.
-Definition shape_hdr (cs : list col) : Z :=
-  2 + (Z.of_nat (length cs) + 7) / 8 + 2 * fold_right (fun c a => ty_var (cty c) + a) 0 cs.
-Definition shape_fixed (cs : list col) : Z := fold_right (fun c a => ty_fixed (cty c) + a) 0 cs.
-Definition shape_eqb (a b : list col) : bool :=
-  (shape_hdr a =? shape_hdr b) && (shape_fixed a =? shape_fixed b).
-(* some non-empty prefix of [cs] (or cs itself) has the shape of [w] *)
-Fixpoint some_prefix_fits (n : nat) (cs w : list col) : bool :=
-  match n with
-  | O => false
-  | S n' => shape_eqb (firstn n cs) w || some_prefix_fits n' cs w
-  end.
-
+(* --- what a full scan shows *)
 Definition i_obs1 (s : istate) (t : Z) : tobs :=
   match get t (itabs s) with
-  | Some tb =>
-      match imis tb with
-      | None => TRows (map cname (icols tb)) (live (irows tb))
-      | Some w =>
-          match irows tb with
-          | [] => TRows (map cname (icols tb)) []
-          | _ => if some_prefix_fits (length (icols tb)) (icols tb) w
-                 then TAny                          (* decoded under a wrong schema: not predicted *)
-                 else TErr                          (* "unknown record format" *)
-          end
-      end
+  | Some tb => TRows (map cname (icols tb)) (live (irows tb))
   | None => TNone
   end.
 Definition i_obs (s : istate) : list tobs := map (i_obs1 s) universe.
@@ -195,27 +170,19 @@ Fixpoint i_run (s : istate) (h : list stmt) : list (bool * list tobs) :=
 (* ------------------------------------------------------------------ recorded defect classes
    (known_findings.d/C21.json), as decidable conditions on (state before, statement): *)
 Definition tbl_of (s : istate) (t : Z) : itbl :=
-  match get t (itabs s) with Some tb => tb | None => mkI [] [] None false end.
+  match get t (itabs s) with Some tb => tb | None => mkI [] [] false end.
 Definition step_class (s : istate) (st : stmt) : Z :=
   match st with
   | AddCol t c =>
       let tb := tbl_of s t in
-      if has_col (cname c) (icols tb) then 4                     (* duplicate column name accepted *)
-      else if negb (val_eqb (cdef c) VN) && negb (match live (irows tb) with [] => true | _ => false end)
+      if negb (has_col (cname c) (icols tb))
+         && negb (val_eqb (cdef c) VN) && negb (match live (irows tb) with [] => true | _ => false end)
       then 1                                                      (* existing rows read NULL, not the DEFAULT *)
-      else 0
-  | DropCol t c exact =>
-      let tb := tbl_of s t in
-      if negb (has_col c (icols tb)) then 0
-      else if negb exact then 3                                   (* other letter case: data migrated, catalogue not *)
-      else if (length (icols tb) <=? 1)%nat then 9                (* the only column is dropped *)
-      else if has_tomb (irows tb) then 2                          (* deleted rows come back *)
       else 0
   | RenameCol t c n =>
       let tb := tbl_of s t in
-      if negb (has_col c (icols tb)) then 0
-      else if has_col n (icols tb) then 7                         (* new name already in use *)
-      else if existsb (idx_on t c) (iidx s) then 6                (* index definition keeps the old name *)
+      if has_col c (icols tb) && negb (has_col n (icols tb)) && existsb (idx_on t c) (iidx s)
+      then 6                                                      (* index definition keeps the old name *)
       else 0
   | CreateIndex i t c =>
       match get t (itabs s) with
@@ -224,15 +191,10 @@ Definition step_class (s : istate) (st : stmt) : Z :=
                    else if ishort tb then 11 else 0
       | None => 0
       end
-  | UpdateEq t _ _ _ _ | UpdateAll t _ _ =>
-      if ishort (tbl_of s t) then 11                              (* short records read by a decoder that does not know them *)
-      else if has_tomb (irows (tbl_of s t)) then 5 else 0         (* F-C05-2 seen from here *)
-  | DeleteEq t _ _ | DeleteAll t => if ishort (tbl_of s t) then 11 else 0
+  (* short records read by a decoder that does not know them *)
+  | UpdateEq t _ _ _ _ | UpdateAll t _ _ | DeleteEq t _ _ | DeleteAll t => if ishort (tbl_of s t) then 11 else 0
   | _ => 0
   end.
-(* a table whose stored records no longer match its catalogue *)
-Definition any_mis (s : istate) : bool :=
-  existsb (fun p : Z * itbl => match imis (snd p) with Some _ => true | None => false end) (itabs s).
 
 Fixpoint hist_class (s : istate) (h : list stmt) : Z :=
   match h with
